@@ -8,7 +8,108 @@ from .flow import ExprBuilder, cfg_of, contains, fmt_expr, walk
 
 NAME = re.compile(r"^(try_)?(get|put)_(u8|i8|u16|i16|u32|i32|u64|i64|u128|i128|f32|f64|uint|int)(_le|_ne)?$")
 CONV = re.compile(r"^core::num::<impl (u|i)(\d+)>::(from|to)_(be|le|ne)_bytes$")
+ARITH = ("BitAnd", "BitOr", "BitXor", "Shl", "Shr", "Add", "Sub", "Mul", "AddWithOverflow", "SubWithOverflow", "MulWithOverflow", "ShlUnchecked", "ShrUnchecked", "AddUnchecked", "SubUnchecked")
 BITS = re.compile(r"^core::f(\d+)::<impl f(\d+)>::(from|to)_bits$")
+
+
+def eval_width(e, n, depth=0):
+    """value of an integer expression that depends only on the width argument nbytes (= ('param', 2)) and literals, for nbytes = n;
+    None when it is anything else (finite-domain abstract evaluation: nbytes ranges over 0..=8)"""
+    from .flow import canon
+    M = (1 << 64) - 1
+    if depth > 30 or not isinstance(e, tuple) or not e:
+        return None
+    h = e[0]
+    if h == "const":
+        return e[1] if isinstance(e[1], int) and not isinstance(e[1], bool) else None
+    if h == "param":
+        return n if e[1] == 2 else None
+    if h in ("cast",):
+        return eval_width(e[2], n, depth + 1)
+    if h in ("ref", "deref"):
+        return eval_width(e[1], n, depth + 1)
+    if h == "bin":
+        a, b = eval_width(e[2], n, depth + 1), eval_width(e[3], n, depth + 1)
+        if a is None or b is None:
+            return None
+        op = e[1].replace("WithOverflow", "").replace("Unchecked", "")
+        if op == "Add":
+            return (a + b) & M
+        if op == "Sub":
+            return (a - b) & M if a >= b else None
+        if op == "Mul":
+            return (a * b) & M
+        if op == "Shl":
+            return (a << b) & M if b < 64 else None
+        if op == "Shr":
+            return a >> b if b < 64 else None
+        if op == "BitAnd":
+            return a & b
+        if op == "BitOr":
+            return a | b
+        return None
+    if h == "call":
+        nm = str(e[1]).rsplit("::", 1)[-1]
+        if nm == "len" and e[2]:
+            # len(buf.get_mut(..n).unwrap()) / len(&buf[..n]) = n
+            for x in walk(e[2][0]):
+                if isinstance(x, tuple) and x and x[0] == "agg" and "RangeTo" in str(x[1]) and x[2]:
+                    return eval_width(x[2][0], n, depth + 1)
+            return None
+        if nm in ("checked_shr", "checked_shl") and len(e[2]) == 2:
+            a, b = eval_width(e[2][0], n, depth + 1), eval_width(e[2][1], n, depth + 1)
+            if a is None or b is None:
+                return None
+            if b >= 64:
+                return ("none",)
+            return (a >> b) if nm == "checked_shr" else (a << b) & M
+        if nm in ("wrapping_shr", "wrapping_shl") and len(e[2]) == 2:
+            a, b = eval_width(e[2][0], n, depth + 1), eval_width(e[2][1], n, depth + 1)
+            if a is None or b is None:
+                return None
+            b &= 63
+            return (a >> b) if nm == "wrapping_shr" else (a << b) & M
+        if nm == "unwrap_or" and len(e[2]) == 2:
+            a = eval_width(e[2][0], n, depth + 1)
+            if a == ("none",):
+                return eval_width(e[2][1], n, depth + 1)
+            return a
+        if nm in ("saturating_sub",) and len(e[2]) == 2:
+            a, b = eval_width(e[2][0], n, depth + 1), eval_width(e[2][1], n, depth + 1)
+            return None if a is None or b is None else max(a - b, 0)
+        if nm in ("min", "max") and len(e[2]) == 2:
+            a, b = eval_width(e[2][0], n, depth + 1), eval_width(e[2][1], n, depth + 1)
+            return None if a is None or b is None else (min(a, b) if nm == "min" else max(a, b))
+    return None
+
+
+def width_arith_ok(op, decoded_left, other, order, ty):
+    """arithmetic applied to a decoded 8-byte word in a variable-width getter: accepted only when, for every width 0..=8, it is exactly the
+    operation that keeps the `nbytes` bytes of the value - `word & low_mask(nbytes)` on a little-endian word, `word >> 8 * (8 - nbytes)` on a
+    big-endian one.  -> True or a reason"""
+    if ty not in ("uint", "int"):
+        return "the result is not the value of the bytes read"
+    op = op.replace("WithOverflow", "").replace("Unchecked", "")
+    bad = []
+    for n in range(0, 9):
+        v = eval_width(other, n)
+        if v is None or v == ("none",):
+            return "the other operand is not a function of the width argument alone, so the result cannot be shown to be the value of the bytes read"
+        if op == "BitAnd" and order == "le":
+            want = (1 << (8 * n)) - 1
+        elif op == "Shr" and order == "be" and decoded_left:
+            want = 8 * (8 - n)
+            if want == 64:
+                want = None         # a shift by 64 is not expressible: nbytes = 0 must be handled separately
+        else:
+            return "`%s` does not select the low / high `nbytes` bytes of a %s-endian word" % (op, order)
+        if want is None or v != want:
+            bad.append((n, v, want))
+    if bad:
+        n, v, want = bad[0]
+        return "for nbytes = %d the operand is %#x where %s is needed: the result is not the value of the %d byte(s) read" % (
+            n, v, ("%#x" % want) if want is not None else "no single shift", n)
+    return True
 
 
 def value_root(e):
@@ -163,6 +264,25 @@ def method_sig(facts, body, trait_path):
             if blk["cleanup"]:
                 continue
             for si, st in enumerate(blk["stmts"]):
+                if bi in live and st["k"] == "assign" and st["rv"]["k"] == "bin" and st["rv"]["op"] in ARITH:
+                    # arithmetic on a value that came out of from_*_bytes / from_bits: the decoded value is no longer the bytes' value
+                    for o in (st["rv"]["a"], st["rv"]["b"]):
+                        e_ = eb.operand(o, (bi, si))
+                        def decodes(x):
+                            if isinstance(x, tuple) and x and x[0] == "call" and (CONV.match(str(x[1])) and "::from_" in str(x[1]) or (BITS.match(str(x[1])) and "::from_bits" in str(x[1]))):
+                                return True
+                            if isinstance(x, tuple) and len(x) >= 2 and x[0] == "closure" and x[1] in facts.by_did:
+                                # `.map(|src| u64::from_le_bytes(..))`: the value is what the closure decodes
+                                for _, ct in facts.by_did[x[1]].calls():
+                                    cf = callee(ct)
+                                    cp = ((cf.get("res") or cf)["path"]) if cf else ""
+                                    if (CONV.match(cp) and "::from_" in cp) or (BITS.match(cp) and "::from_bits" in cp):
+                                        return True
+                            return False
+                        if any(decodes(x) for x in walk(e_)):
+                            other = st["rv"]["b"] if o is st["rv"]["a"] else st["rv"]["a"]
+                            s.notes.append(("arith_on_decoded", (st["rv"]["op"], o is st["rv"]["a"], eb.operand(other, (bi, si)), fmt_expr(e_)[:60])))
+                            break
                 if bi in live and st["k"] == "assign" and st["rv"]["k"] == "cast" and st["rv"]["ck"] == "IntToInt":
                     src_ty = None
                     op = st["rv"]["op"]
@@ -343,6 +463,15 @@ def run(facts, prop=None):
                     if value_root(v) != ("param", 2):
                         problems.append("the value encoded is not the argument itself: %s" % fmt_expr(v)[:80])
                         break
+            # value flow of a getter: what from_*_bytes / from_bits decoded is handed out as it is (casts, sign_extend and Result plumbing only)
+            if m.group(2) == "get":
+                for tag, a in s.notes:
+                    if tag == "arith_on_decoded":
+                        op_, decoded_left, other, shown = a
+                        why = width_arith_ok(op_, decoded_left, other, order if order != "ne" else te, ty)
+                        if why is not True:
+                            problems.append("arithmetic on the decoded value (%s on %s): %s" % (op_, shown, why))
+                            break
             # value flow of a float getter: the bits handed to from_bits are the integer getter's result itself (no arithmetic, no alternative)
             if m.group(2) == "get" and ty in ("f32", "f64"):
                 for tag, a in s.notes:
